@@ -105,6 +105,13 @@ func (c *Conversation) startAKEFromWhitespaceTag(versions int) (toSend []message
 		return
 	}
 
+	// as for a query: a tag that arrives while a key exchange is under way, or just after one
+	// has completed, does not start another one
+	if dontIgnoreFastRepeatQueryMessage != "true" && ((c.msgState == encrypted && isWithinTimeToIgnoreQueryMessage(c.lastMessageStateChange)) ||
+		(c.ake != nil && isWithinTimeToIgnoreQueryMessage(c.ake.lastStateChange))) {
+		return nil, nil
+	}
+
 	// as for a repeated query: while our D-H Commit is unanswered the same commit is sent again
 	if c.ake != nil && c.ake.ourPublicValue != nil {
 		if _, awaiting := c.ake.state.(authStateAwaitingDHKey); awaiting {
